@@ -33,6 +33,7 @@ ap.add_argument("--skip-suite", action="store_true")
 ap.add_argument("--seed", default="0")
 a = ap.parse_args()
 checks = (a.checks or a.prop).split(",")
+a.src = os.path.abspath(a.src)
 
 tmp = tempfile.mkdtemp(prefix="seed-", dir="/tmp")
 repo = os.path.join(tmp, "repo")
